@@ -96,6 +96,8 @@ pub fn run_plan_from(p: &Plan, dir: &std::path::Path, kill: &Kill, report: &mut 
     };
     let polls = AtomicU64::new(0);
     let mut nops = 0u64;
+    // one Writer value for the whole life of the process (what a writer keeps in memory dies with it)
+    let mut pool = crate::exec::WriterPool::new(true);
     let kill_poll = match kill {
         Kill::AtPoll(n) => Some(*n),
         _ => None,
@@ -118,15 +120,13 @@ pub fn run_plan_from(p: &Plan, dir: &std::path::Path, kill: &Kill, report: &mut 
             }
             nops += 1;
             with_metric!(p.metric, D, {
-                let adb: arroy::Database<D> = db.remap_types();
-                let wr = arroy::Writer::<D>::new(adb, p.idx, p.dim);
-                match op {
+                pool.with::<D, _>(p.metric, db, p.idx, p.dim, |wr| match op {
                     Op::Add { id, v, .. } => wr.add_item(&mut w, *id, &unbits(v)).unwrap(),
                     Op::Del { id, .. } => {
                         wr.del_item(&mut w, *id).unwrap();
                     }
                     _ => {}
-                }
+                });
             });
         }
         if let Kill::AtOp(n) = kill {
@@ -137,8 +137,7 @@ pub fn run_plan_from(p: &Plan, dir: &std::path::Path, kill: &Kill, report: &mut 
         nops += 1;
         if *do_build {
         with_metric!(p.metric, D, {
-            let adb: arroy::Database<D> = db.remap_types();
-            let mut wr = arroy::Writer::<D>::new(adb, p.idx, p.dim);
+            pool.with::<D, _>(p.metric, db, p.idx, p.dim, |wr| {
             if p.use_tmpdir {
                 wr.set_tmpdir(tmp_of(dir));
             }
@@ -159,6 +158,7 @@ pub fn run_plan_from(p: &Plan, dir: &std::path::Path, kill: &Kill, report: &mut 
             });
             b.progress(|_| {});
             b.build(&mut w).unwrap();
+            });
         });
         }
         on_version(version, &dump(db, &w));
